@@ -112,8 +112,8 @@ func c16Bystanders() map[string]string {
 	r := map[string]string{}
 	b1, b2 := c16Body()
 	b2.CertRef = nil
-	for _, extra := range []string{"5", "true", "[]", "{}", "[\"http://example.com/verif/dyn/0\"]", "1.5"} {
-		for _, member := range []string{"x-profile", "timestamp", "vendor"} {
+	for _, extra := range []string{"null", "5", "true", "[]", "{}", "[\"http://example.com/verif/dyn/0\"]", "1.5"} {
+		for _, member := range []string{"x-profile", "timestamp", "vendor", "profile", "profile-label"} {
 			o := modelJN(b2)
 			o.keys, o.vals = append(o.keys, "eat-profile", member), append(o.vals, jStr(P2Name), jRaw(extra))
 			c, err := psatoken.DecodeClaimsFromJSON([]byte(o.String()))
@@ -123,6 +123,18 @@ func c16Bystanders() map[string]string {
 			c, err = psatoken.DecodeClaimsFromJSON([]byte(o.String()))
 			r["json/P1+"+member+"="+extra] = c16Outcome(c, err)
 		}
+	}
+	// a document that relies on the DEFAULT profile and spells absent
+	// members as null (null declares nothing, under any register content)
+	for _, member := range []string{"x-profile", "eat-profile", "psa-profile", "timestamp", "vendor"} {
+		o := modelJN(b1)
+		o.keys, o.vals = append(o.keys, member), append(o.vals, jNull())
+		c, err := psatoken.DecodeClaimsFromJSON([]byte(o.String()))
+		r["json/default-profile+"+member+"=null"] = c16Outcome(c, err)
+		o = modelJN(b1)
+		o.keys, o.vals = append([]string{member, "x-profile"}, o.keys...), append([]*jn{jNull(), jNull()}, o.vals...)
+		c, err = psatoken.DecodeClaimsFromJSON([]byte(o.String()))
+		r["json/default-profile+x-profile=null+"+member+"=null"] = c16Outcome(c, err)
 	}
 	for _, extra := range []*icbor.Node{icbor.U(5), icbor.Bool(true), icbor.Arr(), icbor.Tstr("http://example.com/verif/dyn/0")} {
 		ps := append(bodyPairs(b2), icbor.P(icbor.U(265), icbor.Tstr(P2Name)), icbor.P(icbor.I(-75100), extra), icbor.P(icbor.I(-75000), extra))
@@ -490,7 +502,7 @@ func c16Run(t *rapid.T, st *Stats) {
 			mc.checkAll(t)
 		case "register-bad-shape":
 			name := rapid.SampledFrom(c16DynNames).Draw(t, "name")
-			shape := rapid.SampledFrom([]string{"no-profile-field", "no-json-tag", "lookalike-keys"}).Draw(t, "shape")
+			shape := rapid.SampledFrom([]string{"no-profile-field", "no-json-tag", "lookalike-keys", "profile-cbor-dash", "profile-cbor-empty-key"}).Draw(t, "shape")
 			mc.log("Register(%s as %s)", name[len(name)-5:], shape)
 			if err, pmsg := c16Register(c16Profile(name, shape, rapid.IntRange(0, 3).Draw(t, "profile.kind"))); pmsg != "" {
 				mc.fail(t, "registering a profile whose claims type has no identifiable profile field (%s) PANICS: %s", shape, pmsg)
